@@ -68,6 +68,14 @@ PairOut(a, b, size) ==
   LET ca == Chop(Flat(a), size)  cb == Chop(Flat(b), size)
   IN  [k \in 1..Len(ca) |-> [o |-> k - 1, items |-> ca[k], mates |-> cb[k]]]
 
+(* MakeIWorker with a worker that returns SEVERAL records for one input record (demultiplexing of a chimeric  *)
+(* read, fragmenting, scripted workers): record r gives <<r, r + 1000>> when r \in dup, <<r>> otherwise; the     *)
+(* batch keeps its number.                                                                                      *)
+RECURSIVE ExpandSeq(_, _)
+ExpandSeq(s, dup) == IF s = <<>> THEN <<>>
+                     ELSE (IF Head(s) \in dup THEN <<Head(s), Head(s) + 1000>> ELSE <<Head(s)>>) \o ExpandSeq(Tail(s), dup)
+ExpandOut(inp, dup) == [k \in 1..Len(inp) |-> [o |-> k - 1, items |-> ExpandSeq(inp[k], dup)]]
+
 (* IFragments(minsize, length, overlap): a record longer than minsize is cut into windows of `length`    *)
 (* starting every step = length - overlap bases; the window that leaves fewer than `step` bases behind  *)
 (* is extended to the end.  A fragment is <<record, from, to>> (0-based from, exclusive to).            *)
